@@ -1703,6 +1703,10 @@ def _hash(ip, v):
         f = v.cls.lookup('__hash__')
         if f is not I._MISSING:
             return ip.call(I.BoundMethod(f, v), [], {})
+    if isinstance(v, tuple):
+        # the hash of a tuple is computed from the hashes its elements have NOW: an element that is
+        # a mutable object must not be looked at again when the value is compared later
+        return I.HashV(tuple(_hash(ip, x) for x in v))
     return I.HashV(v)
 
 
